@@ -2597,6 +2597,8 @@ class Region(_IRNode):
         # This ensures that operations can refer to blocks that are not yet cloned
         for block in self.blocks:
             new_block = Block()
+            if clone_name_hints:
+                new_block._name = block._name  # pyright: ignore[reportPrivateUsage]
             new_blocks.append(new_block)
             block_mapper[block] = new_block
 
